@@ -16,6 +16,7 @@ CLAIMED = {
  "C15": ("DESIGN §6 C15", "workflows with !wait-optional, !soft-optional, !oneof and !ordisabled in step inputs, wait_for and outputs (nested in lists/maps), sources succeeding / failing / disabled / never finishing, under adversarial completion orders; oracle: reference-model evaluation of the tags (presence, value, discriminator), a wait-optional consumer starts only after its source was produced if it is produced at all, a soft-optional source never delays its consumer"),
  "C13": ("DESIGN §6 C13", "a foreach step over 0-12 (sometimes 60) items with parallelism 1..n+2 (literal, expression, default), per-item outcome and duration so items finish out of order and some fail or end in a declared non-success output; oracle: item runs in progress (open deployments of the body) never exceed parallelism, the body runs once per item with that item, and the reported success list / failure report equals the reference model's (order, length, exact failing indexes, data of the others)"),
  "C19": ("DESIGN §6 C19", "valid and invalid input documents (missing required, wrong type, unknown key, bad nested object / list item, string-encoded numbers, omitted defaults) for workflows whose steps and outputs read many input fields; oracle: invalid => Execute returns an error, zero run deployments, no engine goroutine; valid => not refused, and every plugin input and the output equal the reference normalisation (typed, defaults filled); thin simulation content (deployment counter, order independence), claimed at exploration level"),
+ "C12": ("DESIGN §6 C12", "one plugin RunningStep driven directly through the provider API by 1-3 environment clients (provide deploy/enabling/starting/cancelled input in any order, duplicates, Close, ForceClose, State, CurrentStage at scheduler-chosen moments and overlaps) while the world fails or delays the deployment, returns / crashes / hangs / panics, mismatches the schema or kills the connection; oracle: the notification history is accepted by a lifecycle automaton stated from the property (continuity, each stage finished at most once and never also impossible, declared outputs only, impossible stages never entered, exactly one completion, State()=finished afterwards), no call hangs, no notification begins after the first Close/ForceClose returned, and the provide/close call history is linearizable (porcupine) against 'first provide per stage accepted, later ones refused'"),
 }
 NA = {
  "C11": "pure totality claim over byte strings: no schedule, clock, fault or interleaving in it (input fuzzing is a different technique); see DESIGN §7",
